@@ -6,6 +6,12 @@
   `step` is the guarded dispatch built on that table; a rejected call returns `err`, so the state is
   unchanged by construction (CosmWasm's all-or-nothing execution).
 
+  The state carries, besides the configured owners, what else a sender check could (wrongly) depend on:
+  `loan` — a flash loan of the vault is in flight (LOAN_COUNTER ≠ 0; calls nested in the borrower's
+  callback see this state), and `flows` — the incentive contract's flows in storage order, because the
+  designated sender of `CloseFlow` depends on WHICH stored flow the message names (by id or by a label that
+  need not be unique).
+
   Names are the Rust names. Wrapped variants are flattened with an underscore in the constructor and
   a dot in the line-protocol name: `ExecuteMsg::Receive(Cw20HookMsg::Swap)` = `Receive_Swap` = "Receive.Swap",
   `ExecuteMsg::Callback(CallbackMsg::AfterTrade)` = `Callback_AfterTrade` = "Callback.AfterTrade".
@@ -82,7 +88,8 @@ inductive Account where
   | newOwner    -- receives ownership in the transfer
   | user        -- a stranger with funds
   | wasmAdmin   -- the wasm-level admin passed at instantiate (≠ the configured owner)
-  | flowCreator -- opened the incentive flow that `CloseFlow` refers to
+  | flowCreator -- opened incentive flows 1 and 3
+  | otherFlowCreator -- opened incentive flows 2 and 4, which carry the SAME labels as flows 1 and 3
 deriving DecidableEq, Repr
 
 /-- an address: an account, one of the fifteen contracts (the instance under test), an LP token of the
@@ -93,6 +100,7 @@ inductive Principal where
   | contract (c : Contract)
   | lpOf (c : Contract)
   | assetToken
+  | borrower   -- a foreign contract that takes flash loans (the harness's borrower mock)
 deriving DecidableEq, Repr
 
 /-- caller roles of the matrix; a role is resolved relative to the target contract.
@@ -103,6 +111,8 @@ inductive Role where
   | self | factory | sibling | feeDistributor | registeredVault | minter | lpToken | assetToken
   | hub (c : Contract)   -- each of the fifteen hub contracts as a caller ("every sibling", not a sample)
   | trioLp | vaultLp     -- the other two LP tokens
+  | otherFlowCreator     -- owns other flows of the same incentive contract (same labels)
+  | borrower             -- the borrowing contract itself
 deriving DecidableEq, Repr
 
 /-- the contract that created / administers `c` (for top-level contracts: just a foreign contract) -/
@@ -154,6 +164,30 @@ def resolve (c : Contract) : Role → Principal
   | .hub c' => .contract c'
   | .trioLp => .lpOf .stableswap_3pool
   | .vaultLp => .lpOf .vault
+  | .otherFlowCreator => .acct .otherFlowCreator
+  | .borrower => .borrower
+
+/-! ## Stored objects a message can name: incentive flows -/
+
+/-- `FlowIdentifier` of the message: by id, or by label (labels are abstracted to numbers; they are NOT
+    unique); `none` = the message names no flow -/
+inductive FlowSel where
+  | none
+  | id (n : Nat)
+  | label (l : Nat)
+deriving DecidableEq, Repr
+
+/-- what the authorisation layer reads of a stored flow -/
+structure Flow where
+  id : Nat
+  label : Option Nat
+  creator : Principal
+deriving DecidableEq, Repr
+
+def Flow.matches (f : Flow) : FlowSel → Bool
+  | .none => false
+  | .id n => f.id == n
+  | .label l => f.label == some l
 
 /-! ## The table -/
 
@@ -168,7 +202,7 @@ inductive AuthRule where
   | registeredVault    -- a vault registered in the vault factory, calling about itself
   | lpToken            -- this contract's cw20 LP token (cw20 `Send` hook)
   | poolAssetToken     -- a cw20 asset of this pool (cw20 `Send` hook)
-  | flowCreatorOrFactoryOwner -- incentive `CloseFlow`: the flow's creator or the incentive factory's owner
+  | flowCreatorOrFactoryOwner -- incentive `CloseFlow`: the creator of THE FLOW THE MESSAGE DENOTES or the incentive factory's owner
 deriving DecidableEq, Repr
 
 /-- THE TABLE: contract × variant → rule the sender must satisfy (`none` = permissionless),
@@ -263,23 +297,43 @@ def intended : Msg → Option AuthRule
 
 /-! ## State and guarded dispatch -/
 
-/-- the state the authorisation layer reads: the configured owner of every contract.
-    (router, token and incentive store none; their entry is never read by a rule of theirs) -/
+/-- the state the authorisation layer reads (or could wrongly read): the configured owner of every
+    contract (router, token and incentive store none; their entry is never read by a rule of theirs),
+    whether a flash loan of the vault is in flight, and the incentive contract's flows in storage order
+    (key `(start_epoch, flow_id)`, ascending). -/
 structure St where
   owner : Contract → Principal
+  loan : Bool
+  flows : List Flow
 
-/-- genesis: top-level contracts are owned by their instantiator, children by their factory -/
+/-- the flows the harness opens (hub.rs FLOW_WORLD), in STORAGE order: flow 3 starts one epoch later than
+    flow 4, so it comes last. Label 0 ("shared") denotes flow 1 although flow 2 carries it too; label 1
+    ("late") denotes flow 4 although flow 3 carries it too. -/
+def initFlows : List Flow :=
+  [ ⟨1, some 0, .acct .flowCreator⟩, ⟨2, some 0, .acct .otherFlowCreator⟩,
+    ⟨4, some 1, .acct .otherFlowCreator⟩, ⟨3, some 1, .acct .flowCreator⟩ ]
+
+/-- genesis: top-level contracts are owned by their instantiator, children by their factory; no loan -/
 def St.init : St where
   owner := fun c => match c with
     | .terraswap_pair | .stableswap_3pool => .contract .terraswap_factory
     | .vault => .contract .vault_factory
     | _ => .acct .initOwner
+  loan := false
+  flows := initFlows
 
-def St.setOwner (s : St) (c : Contract) (p : Principal) : St where
-  owner := fun c' => if c' = c then p else s.owner c'
+def St.setOwner (s : St) (c : Contract) (p : Principal) : St :=
+  { s with owner := fun c' => if c' = c then p else s.owner c' }
 
-/-- does principal `p` satisfy `rule` on contract `c` in state `s` -/
-def holds (s : St) (c : Contract) : AuthRule → Principal → Bool
+/-- the same state seen from inside a flash-loan callback of the vault / from outside -/
+def St.withLoan (s : St) (b : Bool) : St := { s with loan := b }
+
+/-- the flow a message denotes: the FIRST match in storage order
+    (incentive/src/execute/close_flow.rs: `FLOWS.range(.., Ascending) … .find(..)`) -/
+def St.resolve (s : St) (sel : FlowSel) : Option Flow := s.flows.find? (fun f => f.matches sel)
+
+/-- does principal `p` satisfy `rule` on contract `c` in state `s`, for a message naming flow `sel` -/
+def holds (s : St) (c : Contract) (sel : FlowSel) : AuthRule → Principal → Bool
   | .owner, p => p == s.owner c
   | .self, p => p == .contract c
   | .wasmAdmin, p => p == .acct .wasmAdmin
@@ -289,15 +343,28 @@ def holds (s : St) (c : Contract) : AuthRule → Principal → Bool
   | .registeredVault, p => p == .contract .vault
   | .lpToken, p => p == lpPrincipal c
   | .poolAssetToken, p => p == .assetToken
-  | .flowCreatorOrFactoryOwner, p => p == .acct .flowCreator || p == s.owner .incentive_factory
+  -- no such flow: the handler fails with NonExistentFlow BEFORE it looks at the sender (nothing to guard)
+  | .flowCreatorOrFactoryOwner, p =>
+    match s.resolve sel with
+    | some f => p == f.creator || p == s.owner .incentive_factory
+    | none => true
 
-/-- table lookup: the specification of the authorisation layer -/
-def admitsP (s : St) (m : Msg) (p : Principal) : Bool :=
+/-- entry points that refuse EVERY sender while a loan of the vault is in flight, with the contract's
+    `Unauthorized` error: a nested loan on the same vault (vault/src/execute/flash_loan.rs, fix F10).
+    (`Deposit` is refused in that state too, with `DepositDuringLoan`, i.e. past the sender check.) -/
+def loanGuarded : Msg → Bool
+  | .vault .FlashLoan => true
+  | _ => false
+
+/-- table lookup: the specification of the authorisation layer. Apart from the nested-loan guard the
+    verdict does not look at `s.loan`, and it looks at `s.flows` only through the flow the message denotes. -/
+def admitsP (s : St) (m : Msg) (sel : FlowSel) (p : Principal) : Bool :=
+  !(s.loan && loanGuarded m) &&
   match requires m with
   | none => true
-  | some rule => holds s m.contract rule p
+  | some rule => holds s m.contract sel rule p
 
-def admits (s : St) (m : Msg) (r : Role) : Bool := admitsP s m (resolve m.contract r)
+def admits (s : St) (m : Msg) (sel : FlowSel) (r : Role) : Bool := admitsP s m sel (resolve m.contract r)
 
 /-- the messages a handler sends on to another hub contract *as itself* (sender, message); these are
     the internal flows whose receiving side carries a sender check somewhere in the chain -/
@@ -314,12 +381,13 @@ def subcalls : Msg → List (Principal × Msg)
        (.contract .terraswap_router, .terraswap_router .AssertMinimumReceive)]
   | .vault .FlashLoan => [(.contract .vault, .vault .Callback_AfterTrade)]
   | .vault_router .FlashLoan =>
-      [(.contract .vault, .vault_router .NextLoan),
+      [(.contract .vault_router, .vault .FlashLoan),
+       (.contract .vault, .vault_router .NextLoan),
        (.contract .vault_router, .vault_router .CompleteLoan)]
   | _ => []
 
 def subcallsAdmitted (s : St) (m : Msg) : Bool :=
-  (subcalls m).all fun pm => admitsP s pm.2 pm.1
+  (subcalls m).all fun pm => admitsP s pm.2 .none pm.1
 
 /-- which contract's `owner` field a message rewrites when its payload names a new owner -/
 def ownerTarget : Msg → Option Contract
@@ -340,27 +408,46 @@ def ownerTarget : Msg → Option Contract
   | .epoch_manager .UpdateConfig => some .epoch_manager
   | _ => none
 
-/-- the effect on the authorisation state of an admitted message whose payload carries
-    `owner := newOwner` (every other effect is outside this model) -/
-def effect (s : St) (m : Msg) (newOwner : Option Principal) : St :=
+/-- what of a message's payload the authorisation state depends on: a new owner, the flow it names -/
+structure Payload where
+  newOwner : Option Principal
+  flow : FlowSel
+
+def Payload.plain : Payload := ⟨none, .none⟩
+
+/-- the effect on the configured owners of an admitted message whose payload carries `owner := newOwner` -/
+def ownerEffect (s : St) (m : Msg) (newOwner : Option Principal) : St :=
   match ownerTarget m, newOwner with
   | some c, some n => s.setOwner c n
   | _, _ => s
 
+/-- the effect on the stored flows: `CloseFlow` removes the flow the message denotes, and only that one -/
+def flowEffect (s : St) (m : Msg) (sel : FlowSel) : St :=
+  match m with
+  | .incentive .CloseFlow =>
+    match s.resolve sel with
+    | some f => { s with flows := s.flows.erase f }
+    | none => s
+  | _ => s
+
+/-- the effect on the authorisation state of an admitted message (every other effect is outside this model) -/
+def effect (s : St) (m : Msg) (pl : Payload) : St :=
+  flowEffect (ownerEffect s m pl.newOwner) m pl.flow
+
 /-- guarded dispatch by principal: reject unless the table's rule holds for the sender and for every
     internal message the handler sends on; a rejected call returns `err` — nothing is written -/
-def stepP (s : St) (m : Msg) (newOwner : Option Principal) (p : Principal) : Res St :=
-  if admitsP s m p then
-    if subcallsAdmitted s m then .ok (effect s m newOwner) else .err
+def stepP (s : St) (m : Msg) (pl : Payload) (p : Principal) : Res St :=
+  if admitsP s m pl.flow p then
+    if subcallsAdmitted s m then .ok (effect s m pl) else .err
   else .err
 
 /-- guarded dispatch by role (`step : St → Contract×Variant → payload → Role → Res St`) -/
-def step (s : St) (m : Msg) (newOwner : Option Principal) (r : Role) : Res St :=
-  stepP s m newOwner (resolve m.contract r)
+def step (s : St) (m : Msg) (pl : Payload) (r : Role) : Res St :=
+  stepP s m pl (resolve m.contract r)
 
 /-- the call got past the target's own check but a contract further down refused the target -/
-def nestedRefusal (s : St) (m : Msg) (r : Role) : Bool :=
-  admits s m r && !subcallsAdmitted s m
+def nestedRefusal (s : St) (m : Msg) (sel : FlowSel) (r : Role) : Bool :=
+  admits s m sel r && !subcallsAdmitted s m
 
 /-! ## Ownership transfer script (what the harness executes between the two phases) -/
 
@@ -376,7 +463,7 @@ def transferScript : List Msg :=
 def runScript (s : St) : List Msg → Res St
   | [] => .ok s
   | m :: ms =>
-    match step s m (some (.acct .newOwner)) .owner with
+    match step s m ⟨some (.acct .newOwner), .none⟩ .owner with
     | .ok s' => runScript s' ms
     | .err => .err
     | .panic => .panic
@@ -393,7 +480,7 @@ def allContracts : List Contract :=
 
 def allRoles : List Role :=
   [ .owner, .newOwner, .user, .wasmAdmin, .flowCreator, .self, .factory, .sibling, .feeDistributor,
-    .registeredVault, .minter, .lpToken, .assetToken, .trioLp, .vaultLp ]
+    .registeredVault, .minter, .lpToken, .assetToken, .trioLp, .vaultLp, .otherFlowCreator, .borrower ]
   ++ allContracts.map Role.hub
 
 def allMsgs : List Msg :=
@@ -434,6 +521,7 @@ def Role.name : Role → String
   | .flowCreator => "flowCreator" | .self => "self" | .factory => "factory" | .sibling => "sibling"
   | .feeDistributor => "feeDistributor" | .registeredVault => "registeredVault" | .minter => "minter"
   | .lpToken => "lpToken" | .assetToken => "assetToken" | .trioLp => "trioLp" | .vaultLp => "vaultLp"
+  | .otherFlowCreator => "otherFlowCreator" | .borrower => "borrower"
   | .hub c => "c:" ++ c.name
 
 /-- the Rust variant name ("Receive.Swap" for `Receive(Cw20HookMsg::Swap)`) -/
@@ -497,6 +585,25 @@ def Msg.ofNames (c v : String) : Option Msg :=
   allMsgs.find? fun m => m.contract.name == c && m.variantName == v
 
 def Role.ofName (r : String) : Option Role := allRoles.find? fun x => x.name == r
+
+/-- does the message name a stored flow whose owner the sender check depends on (7th op-line token) -/
+def Msg.namesFlow : Msg → Bool
+  | .incentive .CloseFlow => true
+  | _ => false
+
+/-- object selectors of the line protocol (hub.rs FLOW_SELECTORS); `id9` names no flow -/
+def allFlowSels : List (String × FlowSel) :=
+  [ ("id1", .id 1), ("id2", .id 2), ("id3", .id 3), ("id4", .id 4), ("labShared", .label 0),
+    ("labLate", .label 1), ("id9", .id 9) ]
+
+def FlowSel.ofName (n : String) : Option FlowSel := (allFlowSels.find? fun x => x.1 == n).map (·.2)
+
+/-- the phases of the matrix and the state each one runs in -/
+def phaseState (phase : String) : Option St :=
+  if phase == "before" then some St.init
+  else if phase == "after" then St.afterTransfer.toOption
+  else if phase == "inloan" then some (St.init.withLoan true)
+  else none
 
 def AuthRule.name : AuthRule → String
   | .owner => "owner" | .self => "self" | .wasmAdmin => "wasmAdmin" | .minter => "minter"
